@@ -18,7 +18,7 @@ PROPS_MODULE = 'QV.C20.Props'
 CORR_IMPORTS = ['QV.C20.Model', 'QV.C20.Spec', 'QV.C20.Corr']
 CHECK_CORR = 'check_corr'
 CHECK_SPEC = 'check_spec'
-SHARD = 130
+SHARD = 80     # round 5: smaller shards = less memory per coqc (the OOM killer hit 550 MB coqc processes on the loaded machine)
 RULE = ('kinds: volt_tol = TOLERANCE STREAM, counted apart (never non-trivial, own histogram key): decimal amplitudes / '
         'offsets / voltages (binary64 values of decimal strings, handed exactly to the model), codes accepted within '
         '1/2 + 2^-30 of the exact scaled voltage, range / monotonicity / rejection / identity of the variants exact.  '
